@@ -195,16 +195,22 @@ def run(ctx: Context) -> None:
         guarded = bool(raises) and all(known_none(fi, rs, is_lookup) is True for rs in raises)
         ctx.check('R04.6', guarded, "raises exactly on the paths where the lookup returned None", fi, raises[0] if raises else fi.node,
                   construct='raise reached only when `<lookup> is None`: ' + ('yes' if guarded else 'no'))
-        ok = False
+        # every exit that is not the refusal hands back the cell the lookup found: no second opinion for a point the lookup missed
+        ok = bool(fi.returns())
         bad = fi.node
         for r in fi.returns():
             v = flow.resolve(r.value)
-            bad = r
+            good = False
             if isinstance(v, ast.Call) and isinstance(v.func, ast.Attribute) and v.func.attr == 'select_index' and v.args:
                 a = flow.resolve(v.args[0])
                 if isinstance(a, ast.Attribute) and a.attr == 'index' and lookups \
                         and flow.reaches(a.value, lambda n: n is lookups[0]) and known_none(fi, r, is_lookup) is False:
-                    ok = True
+                    good = True
+            if not good:
+                ok, bad = False, r
+        banned = [c for c in calls_in(fi, nested=True) if isinstance(c.func, ast.Attribute) and c.func.attr in BANNED_NEAREST]
+        ctx.check('R04.6', not banned, "no nearest-neighbour query stands in for a lookup that missed", fi, banned[0] if banned else fi.node,
+                  construct='nearest-neighbour calls: ' + (norm_text(banned[0]) if banned else 'none'))
         ctx.check('R04.6', ok, "returns select_index(<item>.index) for the item found", fi, bad)
 
 
